@@ -248,6 +248,7 @@ pub fn run(seed: u64, tier: &str, w: &mut dyn Write) -> usize {
             p2.commit_phase_merkle_caps.pop();
             let code = verify(&inst, &inst.openings, &chs, &p2);
             writeln!(w, "c05 {si} fixed-challenges-drop-last-commit-cap = {} # code {code}", (code != 1 && code != 8) as u8).unwrap();
+            emit_model(w, &mut dumped, &inst.openings, &chs, &p2, code);
             n += 1;
         }
         // (d) a function of too high degree: commit polynomials of 2n coefficients but claim degree n
